@@ -196,13 +196,13 @@ func (p Profile) Random(r *rand.Rand, sid int) Scenario {
 			l := Label{Type: pick(r, append(append([]string{}, p.Types...), p.Ifaces...))}
 			if s.Mode == "convcall" && r.Intn(8) == 0 {
 				// corners of "for all target types": the error interface; two types printing the same name
-				l.Type = pick(r, []string{"E", "PE", "L1", "L2"})
+				l.Type = pick(r, []string{"E", "PE", "L1", "L2", "PI1", "P1", "U1"})
 			}
 			s.Target = FuncSpec{In: []Label{l}, Out: []Label{l}, Form: "pos"}
 		}
 		ni := r.Intn(p.MaxInputs + 1)
 		keys := map[string]bool{}
-		special := map[string]string{"E": "PE", "PE": "PE", "L1": "L1", "L2": "L2"}[s.Target.In0Type()]
+		special := map[string]string{"E": "PE", "PE": "PE", "L1": "L1", "L2": "L2", "PI1": "PI1", "P1": "P1", "U1": "U1"}[s.Target.In0Type()]
 		for i := 0; i < ni; i++ {
 			l := Label{Name: pick(r, p.Names), Type: pick(r, p.Types), Sub: pick(r, p.Subs)}
 			if special != "" && r.Intn(2) == 0 {
